@@ -17,14 +17,6 @@ Section Eqs.
                 | LOk ck => if hashable ck then LOk (ck, cv) else LErr LPyType
                 end
     end.
-  Definition lco_item (o : opts) (kv : val * val) : lres val :=
-    match co_lim lim o (fst kv) with
-    | LErr e => LErr e
-    | LOk ck => match co_lim lim o (snd kv) with
-                | LErr e => LErr e
-                | LOk cv => LOk (seq_out o true [ck; cv])
-                end
-    end.
   Definition lco_elem (o : opts) (x : val) : lres val :=
     match co_lim lim o x with
     | LErr e => LErr e
@@ -38,6 +30,7 @@ Section Eqs.
     else match limited lim true (lco_elem o) l with LErr e => LErr e | LOk xs => LOk (VSet (set_of xs)) end.
   Definition lco_listlike o (sized b : bool) l :=
     match limited lim sized (co_lim lim o) l with LErr e => LErr e | LOk xs => LOk (seq_out o b xs) end.
+  Definition lco_item (o : opts) (kv : val * val) : lres val := lco_listlike o true true [fst kv; snd kv].
   Definition lco_view {A} (sized : bool) (f : A -> lres val) (l : list A) : lres val :=
     match limited lim sized f l with LErr e => LErr e | LOk xs => LOk (VList xs) end.
 
@@ -153,10 +146,8 @@ Section LimPlain.
       + rewrite lco_keys in Hr. refine (VW _ _ _ kvs r _ Hr). apply (Forall_impl _ (fun kv Hkv => proj1 Hkv) H).
       + rewrite lco_values in Hr. refine (VW _ _ _ kvs r _ Hr). apply (Forall_impl _ (fun kv Hkv => proj2 Hkv) H).
       + rewrite lco_items in Hr. refine (VW _ _ _ kvs r _ Hr). refine (Forall_impl _ _ H).
-        intros kv [Hk Hv] y Hy. unfold lco_item in Hy.
-        destruct (co_lim lim o (fst kv)) as [ck|e] eqn:Ek; [|discriminate Hy].
-        destruct (co_lim lim o (snd kv)) as [cv|e] eqn:Ev; [|discriminate Hy]. injection Hy as <-.
-        apply seq_out_plain. simpl. rewrite (Hk _ Ek), (Hv _ Ev). reflexivity.
+        intros kv [Hk Hv] y Hy. apply (LL true true [fst kv; snd kv] y); [|exact Hy].
+        constructor; [exact Hk | constructor; [exact Hv | constructor]].
     - rewrite lco_ord in Hr. eapply LL; eassumption.
   Qed.
 End LimPlain.
@@ -169,6 +160,12 @@ Definition all_or_error (lim : limiter) : Prop := forall s n, snd (lim s n) = tr
 
 Lemma embed_ok {A} (x : res A) r : embed x = LOk r -> x = Ok r.
 Proof. destruct x; simpl; intro H; [injection H as <-; reflexivity | discriminate H]. Qed.
+
+Lemma conv_item_listlike o kv : conv_item o kv = co_listlike o true [fst kv; snd kv].
+Proof.
+  unfold conv_item, conv_pair, co_listlike. simpl.
+  destruct (convert_output o (fst kv)); [|reflexivity]. destruct (convert_output o (snd kv)); reflexivity.
+Qed.
 
 (* hashing each element as it arrives = converting all, then hashing all (one error class) *)
 Definition check {A B} (g : A -> res B) (c : B -> bool) (x : A) : res B :=
@@ -255,10 +252,8 @@ Section LimAgree.
       + rewrite lco_values in Hr. rewrite co_values. refine (VW _ _ _ _ kvs r _ Hr).
         apply (Forall_impl _ (fun kv Hkv => proj2 Hkv) H).
       + rewrite lco_items in Hr. rewrite co_items. refine (VW _ _ _ _ kvs r _ Hr). refine (Forall_impl _ _ H).
-        intros kv [Hk Hv] y Hy. unfold lco_item in Hy. unfold conv_item, conv_pair.
-        destruct (co_lim lim o (fst kv)) as [ck|e] eqn:Ek; [|discriminate Hy].
-        destruct (co_lim lim o (snd kv)) as [cv|e] eqn:Ev; [|discriminate Hy].
-        rewrite (Hk _ Ek), (Hv _ Ev). injection Hy as <-. reflexivity.
+        intros kv [Hk Hv] y Hy. rewrite conv_item_listlike. apply (LL true true [fst kv; snd kv] y); [|exact Hy].
+        constructor; [exact Hk | constructor; [exact Hv | constructor]].
     - rewrite lco_ord in Hr. rewrite co_ord. eapply LL; eassumption.
   Qed.
 End LimAgree.
@@ -281,6 +276,10 @@ Proof. induction l as [|x r IH]; simpl; lia. Qed.
 
 Lemma fold_max_in {A} (wf : A -> nat) b l x : In x l -> wf x <= fold_right (fun x m => Nat.max (wf x) m) b l.
 Proof. induction l as [|y r IH]; simpl; intro H; [contradiction|]. destruct H as [->|H]; [lia | specialize (IH H); lia]. Qed.
+
+Lemma fold_max_mono {A} (f g : A -> nat) b l : (forall x, f x <= g x) ->
+  fold_right (fun x m => Nat.max (f x) m) b l <= fold_right (fun x m => Nat.max (g x) m) b l.
+Proof. intro H. induction l as [|x r IH]; simpl; [lia|]. specialize (H x). lia. Qed.
 
 Lemma mapK_all {A B} (f : A -> lres B) (g : A -> res B) l :
   Forall (fun x => f x = embed (g x)) l -> mapK f (length l) l = embed (mapM g l).
@@ -329,12 +328,6 @@ Section LimPass.
     { intros kv [Hk Hv]. unfold lco_pair, check, conv_pair. rewrite Hk, Hv.
       destruct (convert_output o (snd kv)) as [cv|[]], (convert_output o (fst kv)) as [ck|[]]; simpl; try reflexivity.
       destruct (hashable ck); reflexivity. }
-    assert (IT : forall kv, co_lim lim o (fst kv) = embed (convert_output o (fst kv)) /\
-                            co_lim lim o (snd kv) = embed (convert_output o (snd kv)) ->
-                            lco_item lim o kv = embed (conv_item o kv)).
-    { intros kv [Hk Hv]. unfold lco_item, conv_item, conv_pair. rewrite Hk.
-      destruct (convert_output o (fst kv)); simpl; [|reflexivity]. rewrite Hv.
-      destruct (convert_output o (snd kv)); reflexivity. }
     assert (LL : forall s b l, passes lim (fold_right (fun x m => Nat.max (width x) m) (length l) l) -> Forall R l ->
                  lco_listlike lim o s b l = embed (co_listlike o b l)).
     { intros s b l Pw F. destruct (CH l _ Pw (le_n _) F) as [Hl Fe].
@@ -367,17 +360,28 @@ Section LimPass.
     - rewrite lco_fset, co_fset. apply SL; assumption.
     - rewrite lco_set, co_set. apply SL; assumption.
     - rewrite lco_iter, co_iter. apply LL; assumption.
-    - destruct (CK kvs _ Pw (le_n _) H) as [Hl Fe]. destruct k.
+    - cbn [width] in Pw.
+      assert (Pw' : passes lim (fold_right (fun kv m => Nat.max (Nat.max (width (fst kv)) (width (snd kv))) m) (length kvs) kvs)).
+      { apply (passes_le _ _ Pw).
+        apply (fold_max_mono (fun kv : val * val => Nat.max (width (fst kv)) (width (snd kv)))
+                 (fun kv => Nat.max (item_width k) (Nat.max (width (fst kv)) (width (snd kv))))). intro x. lia. }
+      destruct (CK kvs _ Pw' (le_n _) H) as [Hl Fe]. destruct k.
       + rewrite lco_keys, co_keys. unfold lco_view.
-        rewrite (limited_pass true _ (fun kv => convert_output o (fst kv)) kvs _ Pw Hl (Forall_impl _ (fun kv Hkv => proj1 Hkv) Fe)).
+        rewrite (limited_pass true _ (fun kv => convert_output o (fst kv)) kvs _ Pw' Hl (Forall_impl _ (fun kv Hkv => proj1 Hkv) Fe)).
         destruct (mapM _ kvs); reflexivity.
       + rewrite lco_values, co_values. unfold lco_view.
-        rewrite (limited_pass false _ (fun kv => convert_output o (snd kv)) kvs _ Pw Hl (Forall_impl _ (fun kv Hkv => proj2 Hkv) Fe)).
+        rewrite (limited_pass false _ (fun kv => convert_output o (snd kv)) kvs _ Pw' Hl (Forall_impl _ (fun kv Hkv => proj2 Hkv) Fe)).
         destruct (mapM _ kvs); reflexivity.
       + rewrite lco_items, co_items. unfold lco_view.
-        rewrite (limited_pass true _ (conv_item o) kvs _ Pw Hl).
+        rewrite (limited_pass true _ (conv_item o) kvs _ Pw' Hl).
         * destruct (mapM _ kvs); reflexivity.
-        * apply (Forall_impl _ IT Fe).
+        * rewrite Forall_forall in *. intros kv Hin. destruct (H kv Hin) as [Rk Rv].
+          rewrite conv_item_listlike. unfold lco_item. apply LL.
+          -- apply (passes_le _ _ Pw).
+             pose proof (fold_max_in (fun kv : val * val => Nat.max (item_width KItems) (Nat.max (width (fst kv)) (width (snd kv))))
+                           (length kvs) kvs kv Hin) as M. cbv beta in M.
+             cbn [fold_right length]. unfold item_width in M |- *. lia.
+          -- constructor; [exact Rk | constructor; [exact Rv | constructor]].
     - rewrite lco_ord, co_ord. apply LL; assumption.
   Qed.
 End LimPass.
